@@ -149,7 +149,8 @@ DepConds(ev) ==
             \* the time of creation: the birthday bound of C11 is gone with it)
             << Cond("time-through-injected", {"C18", "C11", "C13"}, ev.impl = deps.time),
                Cond("time-only-in-create", {"C18", "C11", "C13"} \cup OpProps(op), op = "Create"),
-               Cond("time-once", {"C18", "C13"}, Count("Time") = 0) >>
+               \* (two readings of a clock are two times: which one is "the time of creation" that C11 bounds?)
+               Cond("time-once", {"C18", "C11", "C13"}, Count("Time") = 0) >>
          [] ev.e = "Kdf" ->
             IF op = "Keygen" THEN
             LET s == SeedOf(call.a.h)
